@@ -6,9 +6,59 @@
  */
 #include "rdsquashfs.h"
 
-static int print_name(const sqfs_tree_node_t *n, bool dont_escape)
+/*
+  Characters that force a token into quotation marks: the separators used by
+  the gensquashfs file listing parser, the quote character itself and the
+  carriage return (stripped by the parser at the end of a line).
+ */
+static const char *quote_chars = " \t\r\"";
+
+static void print_escaped(const char *str, bool quoted)
 {
-	char *start, *ptr, *name;
+	if (!quoted) {
+		fputs(str, stdout);
+		return;
+	}
+
+	for (; *str != '\0'; ++str) {
+		if (*str == '"' || *str == '\\')
+			fputc('\\', stdout);
+		fputc(*str, stdout);
+	}
+}
+
+/*
+  Print a string, optionally with a directory prefixed, as a single token
+  that split_line() turns back into exactly the same string.
+ */
+static void print_token(const char *prefix, const char *str)
+{
+	bool quoted = (strpbrk(str, quote_chars) != NULL);
+
+	if (prefix == NULL) {
+		if (*str == '\0')
+			quoted = true;
+	} else if (strpbrk(prefix, quote_chars) != NULL) {
+		quoted = true;
+	}
+
+	if (quoted)
+		fputc('"', stdout);
+
+	if (prefix != NULL) {
+		print_escaped(prefix, quoted);
+		fputc('/', stdout);
+	}
+
+	print_escaped(str, quoted);
+
+	if (quoted)
+		fputc('"', stdout);
+}
+
+static int print_name(const sqfs_tree_node_t *n, const char *prefix)
+{
+	char *name;
 	int ret;
 
 	ret = sqfs_tree_node_get_path(n, &name);
@@ -23,32 +73,7 @@ static int print_name(const sqfs_tree_node_t *n, bool dont_escape)
 		return -1;
 	}
 
-	if (dont_escape || (strchr(name, ' ') == NULL &&
-			    strchr(name, '"') == NULL)) {
-		fputs(name, stdout);
-	} else {
-		fputc('"', stdout);
-
-		ptr = strchr(name, '"');
-
-		if (ptr != NULL) {
-			start = name;
-
-			do {
-				fwrite(start, 1, ptr - start, stdout);
-				fputs("\\\"", stdout);
-				start = ptr + 1;
-				ptr = strchr(start, '"');
-			} while (ptr != NULL);
-
-			fputs(start, stdout);
-		} else {
-			fputs(name, stdout);
-		}
-
-		fputc('"', stdout);
-	}
-
+	print_token(prefix, name);
 	sqfs_free(name);
 	return 0;
 }
@@ -63,7 +88,7 @@ static int print_simple(const char *type, const sqfs_tree_node_t *n,
 			const char *extra)
 {
 	printf("%s ", type);
-	if (print_name(n, false))
+	if (print_name(n, NULL))
 		return -1;
 	print_perm(n);
 	if (extra != NULL)
@@ -86,8 +111,14 @@ int describe_tree(const sqfs_tree_node_t *root, const char *unpack_root)
 	case S_IFSOCK:
 		return print_simple("sock", root, NULL);
 	case S_IFLNK:
-		return print_simple("slink", root,
-				    (const char *)root->inode->extra);
+		fputs("slink ", stdout);
+		if (print_name(root, NULL))
+			return -1;
+		print_perm(root);
+		fputc(' ', stdout);
+		print_token(NULL, (const char *)root->inode->extra);
+		fputc('\n', stdout);
+		break;
 	case S_IFIFO:
 		return print_simple("pipe", root, NULL);
 	case S_IFREG:
@@ -95,11 +126,11 @@ int describe_tree(const sqfs_tree_node_t *root, const char *unpack_root)
 			return print_simple("file", root, NULL);
 
 		fputs("file ", stdout);
-		if (print_name(root, false))
+		if (print_name(root, NULL))
 			return -1;
 		print_perm(root);
-		printf(" %s/", unpack_root);
-		if (print_name(root, true))
+		fputc(' ', stdout);
+		if (print_name(root, unpack_root))
 			return -1;
 		fputc('\n', stdout);
 		break;
